@@ -37,7 +37,7 @@ class XLFormula(XLType):
                     and (token.tvalue not in self.terms)
             ):
                 # Make sure we have a full address.
-                term = token.tvalue
+                term = token.tvalue.replace('$', '')
                 if '!' not in term:
                     term = f'{self.sheet_name}!{term}'
                 self.terms.append(term)
